@@ -108,11 +108,12 @@ def h_hostile_fd(ex, kinds, srcs, gaps, phase='fresh', length=None, mpglen=4):
         if kd == 'mpg':
             data[3] = mpglen        # contained length concrete (a symbolic one is a 256-way split per group)
         cid = tp21.can_id(prio, pf, dest, src)
-        n.inbox.append({'i': -1, 't': w.now, 'src': 'ext', 'id': cid, 'ext': True, 'data': list(data), 'fd': True, 'lost': False})
+        n.inbox.append({'i': -1, 't': w.now, 'src': 'ext', 'id': cid, 'ext': True, 'data': list(data), 'fd': True, 'lost': False, 'via_listener': True})
         w.run(until=w.now)
     w.branching = False
     w.run(until=w.now + T('6.5'))
     info = {'phase': phase, 'kinds': kinds, 'srcs': srcs, 'gaps': gaps}
+    ex.claim('fd.exceptions_contained_at_the_bus_listener', not n.listener_escapes, dict(info, escaped=[repr(e) for e in n.listener_escapes][:2]))
     ex.claim('fd.job_thread_alive', n.dead is None, dict(info, died=repr(n.dead)))
     ex.claim('fd.no_busy_spin', not n.spin, info)
     if not n.job_alive():
